@@ -403,4 +403,39 @@ example : (match serveHTTP exCfg [] (some { exRoute with redirectCode := 301, ha
 example : (match serveHTTP exCfg [] (some exRoute) { exListReq with remoteAddr := "1.2.3.4".toList } with
     | .badPeer => true | _ => false) = true := by decide
 
+/-! ### informational responses of the upstream do not cost the client its Strict-Transport-Security -/
+
+theorem addResponseHeaders_nil (cfg : Cfg) (tls : Bool) :
+    addResponseHeaders cfg tls [] = [] ∨ addResponseHeaders cfg tls [] = [(stsName, [stsValue cfg])] := by
+  unfold addResponseHeaders
+  split
+  · right; rfl
+  · left; rfl
+
+/-- **Whatever number of 1xx responses the upstream sends first, the final response carries what `ServeHTTP`
+added** (repair `3162882`): `client_sts_only_on_tls` / `client_sts_on_tls` hold for the final response. -/
+theorem client_sts_survives_informational (cfg : Cfg) (uuid : Str) (route : Option Route) (r : Req) (n : Nat) :
+    clientSTSAfter n (serveHTTP cfg uuid route r) = clientSTS (serveHTTP cfg uuid route r) := by
+  cases route with
+  | none => rfl
+  | some t =>
+    unfold serveHTTP
+    simp only
+    split
+    · rfl
+    · split
+      · rfl
+      · simp only [clientSTSAfter, clientSTS, finalResponseHeaders, afterInformational, restoreHeaders]
+        rcases addResponseHeaders_nil cfg r.tls.isSome with h | h <;> rw [h] <;> cases n <;> simp [entries, vals]
+
+/-- Witness about the code before the repair (the map as `httputil.ReverseProxy` leaves it, nothing put back):
+one 103 response and the client of a TLS listener reads no Strict-Transport-Security. -/
+theorem informational_response_dropped_sts :
+    (entries stsName (afterInformational 1 (addResponseHeaders exCfg true []))).flatMap (·.2) = [] ∧
+    (entries stsName (afterInformational 0 (addResponseHeaders exCfg true []))).flatMap (·.2) = [stsValue exCfg] := by
+  decide
+
+example : clientSTSAfter 2 (serveHTTP exCfg "id".toList (some exRoute) { exListReq with tls := some ⟨0x0303, 0xc02f⟩ })
+    = ["max-age=31536000; includeSubdomains".toList] := by decide
+
 end Fabio.Props.C08Serve
